@@ -152,6 +152,11 @@ def run(prog: Program, res: Result, tier: str) -> None:
         res.ok("R1", k, k.node, "tsamp, period and accel are float64 in every signature of fold", key=key, construct="signature")
     # ---- R6 the plan the folding loop consumes (shared with C01) ------------------------------------------------------
     depends(res, "R6", prog, tier, "C01", why="the blocks these loops consume come from read_plan: the plan rules of C01 (and, through them, the multi-file stream rules of C02) are re-evaluated here")
+    # a numeric argument that is 0 is an argument (accel=0 means no acceleration, not "use the header's"): no numeric parameter of the
+    # folding entry points is used for its truth value
+    from ..lints import check_no_falsy_zero
+    check_no_falsy_zero(prog, res, "R5", ["sigpyproc.timeseries", "sigpyproc.base"], "accel = 0 (or start = 0, dm = 0) would be replaced by a fallback")
+
     res.floor("R6", 40)
     res.floor("R1", 2)
     res.floor("R2", 4)
@@ -248,6 +253,10 @@ MUTANTS = [
      "old": "    for isamp in range(nsamps - maxdelay):\n        tj = (isamp + index) * tsamp", "new": "    for isamp in range(1, nsamps - maxdelay):\n        tj = (isamp + index) * tsamp"},
     {"id": "c11-alloc-too-small", "file": B, "expect": "C11.R2",
      "old": "        count_ar = np.zeros(nbins * nints * nbands, dtype=\"int32\")", "new": "        count_ar = np.zeros(nbins * nints, dtype=\"int32\")"},
+]
+MUTANTS += [
+    {"id": "c11-ts-fold-accel-falsy", "file": "sigpyproc/timeseries.py", "expect": "C11.R5",
+     "old": "        fold_ar = np.zeros(nbins * nints, dtype=np.float32)", "new": "        accel = accel or self.header.accel\n        fold_ar = np.zeros(nbins * nints, dtype=np.float32)"},
 ]
 TWINS = [
     {"id": "c11-twin-pos-inline", "file": K,
